@@ -273,6 +273,16 @@ func runC12(c *engine.Ctx) {
 			run("eap", eb, fmt.Sprintf("aka-boundary@%d words", total))
 		}
 	}
+	// packets with repeated attributes (one AT_KDF per offered key derivation function, repeated skippable ones), at
+	// EAP level and inside a message
+	if c.Mine() {
+		for _, b := range c20ForeignAKA() {
+			run("msg", b, "aka-repeated-or-foreign")
+			if len(b) > 32 {
+				run("eap", b[32:], "aka-repeated-or-foreign")
+			}
+		}
+	}
 	depth := 1
 	if c.Thorough() {
 		depth = 2
